@@ -55,12 +55,8 @@ def check_bitmap(ctx, prog, R):
               "a bucket head can be stored without updating the occupancy bitmap (iteration would skip or mis-visit the bucket)", where=where(store))
     ctx.check(bool(w64) and not store.success_reach_return(0, [w64[0][0]]), "bitmap-maintained", "must-store", "the bucket-head store can return Ok without writing the bucket", where=where(store))
     # set / clear arms on offset.is_zero()
-    def pred(o):
-        if o.kind != "call" or not (o.data.get("callee") or "").endswith("::is_zero"):
-            return False
-        a = origins(prog, store, o.data["args"][0], at=o.block)
-        return bool(a) and all(x.kind == "param" and x.data == 4 for x in a)
-    sp = find_bool_split(prog, store, pred)
+    from .util import zero_splits
+    sp = zero_splits(prog, store, lambda a: all(x.kind == "param" and x.data == 4 for x in a))
     if ctx.check(len(sp) == 1, "bitmap-maintained", "zero-split", "cannot find the `offset.is_zero()` split in the bucket-head store", where=where(store)):
         rz, rn = region_dominated(store, sp[0]["true"]), region_dominated(store, sp[0]["false"])
         ops_z, ops_n = _binops(store, rz), _binops(store, rn)
